@@ -11,11 +11,11 @@ from core import mkres, EncoderMismatch
 ID = 'C02'
 TITLE = 'CHECKSIG/CHECKSIGVERIFY/CHECKMULTISIG(VERIFY)/CHECKSIGADD one-step differential with an uninterpreted signature oracle (encoding rules, flag-selected errors, in-order multisig matching, FindAndDelete, tapscript weight), opcode-position bookkeeping, HasValidOps domain'
 TUS = base.TUS; SHIMS = base.SHIMS + ['sighash']; NATIVE_TUS = base.NATIVE_TUS
-FUNCTIONS = ['SignatureHash (legacy + BIP143)', 'CTransactionSignatureSerializer', 'SignatureHashSchnorr (BIP341/342)', 'PrecomputedTransactionData::Init', 'EvalChecksig', 'EvalChecksigPreTapscript', 'EvalChecksigTapscript', 'OP_CHECKMULTISIG loop', 'CheckSignatureEncoding', 'IsValidSignatureEncoding', 'IsDefinedHashtypeSignature', 'CheckPubKeyEncoding',
+FUNCTIONS = ['GenericTransactionSignatureChecker<CTransaction>::CheckECDSASignature / CheckSchnorrSignature (hash type extraction, size rules, digest hand-over)', 'SignatureHash (legacy + BIP143)', 'CTransactionSignatureSerializer', 'SignatureHashSchnorr (BIP341/342)', 'PrecomputedTransactionData::Init', 'EvalChecksig', 'EvalChecksigPreTapscript', 'EvalChecksigTapscript', 'OP_CHECKMULTISIG loop', 'CheckSignatureEncoding', 'IsValidSignatureEncoding', 'IsDefinedHashtypeSignature', 'CheckPubKeyEncoding',
              'FindAndDelete', 'StepScript(InterpreterEnv&) opcode_pos', 'CScript::HasValidOps']
 ASSUMPTIONS = base.ASSUMPTIONS + ['the ECDSA/Schnorr verdict is an uninterpreted function of (signature, key, scriptCode | leaf hash+code separator position, sigversion): holds for every checker, hence for the real one',
                                   'CPubKey::CheckLowS is an uninterpreted predicate of the signature bytes', 'elliptic-curve arithmetic of libsecp256k1 and the lax DER parser are outside the claim']
-OUTSIDE = ['signatures longer than 10 bytes other than the 71/72/73-byte DER sizes', 'more than 3 keys except the 20/21 boundary', 'digests: transactions with more than 2 inputs / 2 outputs (3 in thorough), scripts longer than 3 bytes', 'the hand-over checker -> SignatureHash (hash type byte extraction, amount) inside GenericTransactionSignatureChecker']
+OUTSIDE = ['signatures longer than 10 bytes other than the 71/72/73-byte DER sizes', 'more than 3 keys except the 20/21 boundary', 'digests: transactions with more than 2 inputs / 2 outputs (3 in thorough), scripts longer than 3 bytes', 'ECDSA / Schnorr verification itself (uninterpreted functions of key, digest, signature)']
 BOUNDS = {'quick': 'sig lengths {0,1,8,9,10}, key lengths {0,1,32,33,65}; multisig n-of-m for m<=2 (+ key counts 20/21 with empty keys); scriptCode tail of 0/2/3 bytes (FindAndDelete pattern may match); flags, nOpCount, weight, code separator position, leaf hash symbolic',
           'thorough': 'as quick plus sig lengths 71..73, m<=3'}
 
@@ -27,6 +27,7 @@ def setup(E):
         bs = [E.load(st, b + i, 1) for i in range(e - b)]
         return stubs.b2i(R.lows(bs), 1) if bs else 0
     E.stubs['_ZN7CPubKey9CheckLowSERKSt6vectorIhSaIhEE'] = checklows
+    sighashlib.install_checker_stubs(E)
 
 def obligations(tier, seed):
     obs = []
@@ -119,7 +120,7 @@ def key_fn(ob):
     return k
 
 def run(E, ob):
-    if ob['kind'] in ('sighash', 'schnorr'): return sighashlib.run(E, ob)
+    if ob['kind'] in ('sighash', 'schnorr', 'checker'): return sighashlib.run(E, ob)
     if ob['kind'] == 'opos': return run_opos(E, ob)
     if ob['kind'] == 'validops': return run_validops(E, ob)
     req, S, inputs, assume = build(ob)
@@ -192,7 +193,7 @@ def concrete(ob, cex):
     return V
 
 def replay(lib, ob, cex):
-    if ob['kind'] in ('sighash', 'schnorr'): return sighashlib.replay(lib, ob, cex)
+    if ob['kind'] in ('sighash', 'schnorr', 'checker'): return sighashlib.replay(lib, ob, cex)
     if ob['kind'] == 'validops':
         import hlib
         script = [ob['op']] if ob['op'] is not None else cex['script']
